@@ -49,7 +49,7 @@ PROBE_RESULT = {k: _probe(v) for k, v in PROBES.items()}
 # parallel (harness/c07.cpp: -DC07_PART=k) by run() below; check.py then compiles main() and links them.
 BASE_FLAGS = ["-std=c++23", "-O0"] + ["-D%s=%d" % kv for kv in sorted(PROBE_RESULT.items())]
 HARNESS_FLAGS = list(BASE_FLAGS)
-NPARTS = 8
+NPARTS = 11
 
 
 def _build_parts():
@@ -162,7 +162,9 @@ THEOREMS = {
     "vcat": [], "ocat": [], "ecat": [],
     "visit": [T + "visit_dispatch", T + "visit1_active", T + "visit2_active"], "visitp": [T + "visit_dispatch"],
     "emplace": [T + "step_refines_partial", T + "run_refines_partial", T + "optional_refines", T + "expected_refines_partial"],
-    "assign": [T + "assign_refines_partial", T + "assign_fallback_counterexample", T + "assignSelf_refines", T + "step_refines_partial",
+    "make": [T + "step_refines_partial", T + "run_refines_partial"],
+    "sel": [T + "narrow_eq", T + "selectK_eq", T + "selectK_none", T + "select_pointer_not_bool", T + "select_eq"],
+    "assign": [T + "assign_refines_partial", T + "assign_repeated_type", T + "assign_fallback_counterexample", T + "assignSelf_refines", T + "step_refines_partial",
                T + "run_refines_partial", T + "optional_refines", T + "expected_refines_partial"],
     "ctor": [T + "construct_refines", T + "step_refines_partial", T + "run_refines_partial"],
     "swap": [T + "swap2_refines", T + "swapSelf_refines", T + "swapV_eq_std", T + "swap2_std", T + "swapO_eq_std", T + "step_refines_partial",
@@ -170,7 +172,7 @@ THEOREMS = {
     "rel": [T + "varRel_eq", T + "optRel_eq"], "relm": [T + "optRel_eq"],
     "reln": [T + "optRelNullR_eq", T + "optRelNullL_eq"], "relv": [T + "optRelValR_eq", T + "optRelValL_eq"],
     "conv": [T + "convAssign_refines_partial", T + "convAssign_fallback_counterexample", T + "convCtor_refines", T + "step_refines_partial",
-             T + "run_refines_partial", T + "optional_refines", T + "optional_convCtor_refines", T + "select_eq"],
+             T + "run_refines_partial", T + "optional_refines", T + "optional_convCtor_refines", T + "select_eq", T + "selectK_eq", T + "narrow_eq"],
     "get_if": [T + "getIf_eq"], "value_or": [T + "valueOr_eq", T + "valueOrCat_eq", T + "expValueOr_eq", T + "expValueOrCat_eq"],
     "and_then": [T + "andThen_eq", T + "expAndThen_eq"],
     "or_else": [T + "orElse_eq", T + "orElseCat_eq", T + "expOrElse_eq"],
@@ -181,7 +183,11 @@ THEOREMS = {
 }
 SEARCH_CAP = 300000
 
-VAR_CFGS = ["if", "fi", "it", "ti", "tif", "ift", "tm", "iftm", "fm", "ic", "id", "ia", "ib", "qx", "cb", "ii"]
+VAR_CFGS = ["if", "fi", "it", "ti", "tif", "ift", "tm", "iftm", "fm", "ic", "id", "ia", "ib", "qx", "cb", "ii", "tit", "qiq", "mm"]
+REP_CFGS = [c for c in VAR_CFGS if len(set(c)) < len(c)]       # configurations with a repeated alternative type
+# selector probes: argument kinds x alternative lists (harness sel_step0 / sel_step1, Driver.kindOf)
+SEL_ARGS = "bhsilufdpPvnLeETNI"
+SEL_LISTS = ["bT", "Tb", "ibv", "bi", "bN", "hld", "fl", "su", "pT", "vb", "TN", "iE", "el", "bdT", "b", "bb", "ifd", "lN", "Pb"]
 OPT_CFGS = ["i", "f", "t", "m", "c", "d", "a", "b", "x"]
 EXP_CFGS = ["it", "ti", "if", "tm", "ic", "qx", "db"]
 CAT_CFGS = ["it", "qx", "id", "tif"]          # variant configurations with the value-category observations compiled in
@@ -224,11 +230,15 @@ def gen_var_exhaustive(add, thorough):
         sts = var_states(alts)
         n = len(alts)
         for (i0, v0), (i1, v1) in itertools.product(sts, repeat=2):
-            setup = [new("var", alts), "emplace s=0 i=%d v=%d" % (i0, v0), "emplace s=1 i=%d v=%d via=type" % (i1, v1)]
+            uniq1 = alts.count(alts[i1]) == 1
+            setup = [new("var", alts), "emplace s=0 i=%d v=%d" % (i0, v0),
+                     ("emplace s=1 i=%d v=%d via=type" if uniq1 else "make s=1 i=%d v=%d") % (i1, v1)]
             for op in pair_ops:
                 add(setup + [op, "rel s=0 with=1", "visit s=[0,1,2] idx=1" if n <= 3 else "visit s=[2,1]"], "var-pair/" + alts)
         for (i0, v0) in sts:
             setup = [new("var", alts), "emplace s=0 i=%d v=%d" % (i0, v0)]
+            add([new("var", alts), "make s=0 i=%d v=%d" % (i0, v0), "make s=1 i=%d v=%d" % (i0, v0), "rel s=0 with=1", "visit s=[0,1] idx=1"]
+                + ["get_if s=0 i=%d" % i for i in range(n)], "var-make/" + alts)
             for op in self_ops:
                 add(setup + [op, "visit s=[0]"], "var-self/" + alts)
             add(setup + ["get_if s=0 i=%d%s" % (i, via) for i in range(n) for via in ("", " via=type")]
@@ -256,8 +266,8 @@ def gen_var_exhaustive(add, thorough):
                 add(setup + ["vcat s=[0] q=[%d] vis=take" % q, "vcat s=[1,0] q=[%d,%d] vis=take" % (q, 3 - q), "visit s=[0,1]"], "var-cat/" + alts)
                 add(setup + ["vcat s=[0,1] q=[2,%d] vis=take" % q, "vcat s=[0,1] q=[%d,2] vis=take" % q], "var-cat/" + alts)
     # all histories of a fixed depth over a small alphabet, two objects
-    for alts in (["it", "if", "ic", "qx"] if not thorough else ["it", "if", "tm", "ic", "id", "ia", "ib", "qx", "cb"]):
-        alpha = ["emplace s=%d i=%d v=%d" % (k, i, 1 + k) for k in (0, 1) for i in (0, 1)]
+    for alts in (["it", "if", "ic", "qx", "qiq"] if not thorough else ["it", "if", "tm", "ic", "id", "ia", "ib", "qx", "cb", "qiq", "tit"]):
+        alpha = ["emplace s=%d i=%d v=%d" % (k, i, 1 + k) for k in (0, 1) for i in ((0, 1) if alts not in REP_CFGS else (0, 2))]
         alpha += ["assign s=%d from=%d mv=%d" % (k, j, mv) for k in (0, 1) for j in (0, 1) for mv in (0, 1)]
         alpha += ["ctor s=%d from=%d mv=%d" % (k, j, mv) for k in (0, 1) for j in (0, 1) for mv in (0, 1)]
         alpha += ["swap s=0 with=1", "swap s=0 with=0", "swap s=1 with=1"]
@@ -348,6 +358,13 @@ def gen_exp_exhaustive(add, thorough):
             add([new("exp", alts), setx(0, s0), setx(1, s1), "rel s=0 with=1", "rel s=1 with=1"], "exp-rel/" + alts)
 
 
+def gen_sel_exhaustive(add, thorough):
+    """converting constructor / assignment: every argument kind x every alternative list x both forms"""
+    for alts in SEL_LISTS:
+        for how in ("ctor", "assign"):
+            add([new("sel")] + ["sel a=%s alts=%s how=%s" % (a, alts, how) for a in SEL_ARGS], "sel/" + alts)
+
+
 def rand_var(rnd, alts, length):
     n = 3
     lines = [new("var", alts, n)]
@@ -358,7 +375,7 @@ def rand_var(rnd, alts, length):
         if r < 0.22:
             i = rnd.randrange(na)
             v = rnd.choice(VALS[alts[i]] + [3])
-            lines.append("emplace s=%d i=%d v=%d%s" % (k, i, v, rnd.choice(["", " via=type"])))
+            lines.append(rnd.choice(["emplace s=%d i=%d v=%d", "emplace s=%d i=%d v=%d via=type", "make s=%d i=%d v=%d"]) % (k, i, v))
         elif r < 0.40:
             lines.append("assign s=%d from=%d mv=%d" % (k, j, rnd.randrange(2)))
         elif r < 0.52:
@@ -473,6 +490,7 @@ def generate(tier, seed):
     gen_var_exhaustive(add, thorough)
     gen_opt_exhaustive(add, thorough)
     gen_exp_exhaustive(add, thorough)
+    gen_sel_exhaustive(add, thorough)
     nr = 150000 if thorough else 3000
     for _ in range(nr):
         ln = rnd.randint(10, 30)
@@ -500,6 +518,8 @@ def _state(out):
 
 
 def nontrivial(case, rows):
+    if case.lines[0].startswith("new kind=sel"):        # no state: non-trivial = some argument kind selects an alternative
+        return any(not r.spec.startswith("nc") for r in rows[1:])
     s0 = _state(rows[0].spec)
     return any(_state(r.spec) != s0 for r in rows[1:])
 
